@@ -1,55 +1,124 @@
 ------------------------------- MODULE Codec -------------------------------
 (***************************************************************************)
 (* C11: the machine string codec (crates/maybenot/src/machine.rs from_str / *)
-(* serialize, parsing.rs parse_v1_machine) as a pipeline of stages, each    *)
-(* with its rejection outcome and a memory account.                         *)
+(* serialize, parsing.rs parse_v1_machine) as two step-wise pipelines, each *)
+(* stage with its rejection outcome and a memory account.                   *)
 (*                                                                         *)
-(*   from_str:  len >= 3 -> ASCII -> version "02" -> base64 -> inflate into *)
-(*              a fixed buffer of MAX bytes (reads at most MAX) -> bincode  *)
-(*              with limit MAX -> validate                                  *)
+(*   from_str (v2):  len >= 3 -> ASCII -> version "02" -> base64 -> inflate *)
+(*        into a fixed buffer of MAX bytes by a LOOP of reads, each of      *)
+(*        which may return any non-empty part of what is left (a reader is  *)
+(*        allowed short reads), until the buffer is full or the stream ends *)
+(*        -> bincode with limit MAX -> validate                             *)
+(*   parse_v1_machine (v1):  hex -> inflate with read_to_end (unbounded: the*)
+(*        property bounds memory for the current format only) -> 2-byte     *)
+(*        version -> header length -> exact payload length for the declared *)
+(*        number of states -> per-state parse -> Machine::new (validate)    *)
+(*                                                                         *)
 (* An abstract input says at which stage it is first malformed and how far  *)
-(* it would decompress. TLC checks for every abstract input that            *)
-(*   Ok  => every stage accepted, in particular validation;                 *)
-(*   the memory held is at most  K * MAX + input length, whatever the input *)
-(*   would decompress to (the bomb clause);                                 *)
-(*   a serialized valid machine of size <= MAX parses to an equal machine.  *)
+(* it would decompress. TLC checks for every abstract input and every       *)
+(* chunking of the reads that                                               *)
+(*   Ok  => every stage accepted, in particular validation (both parsers);  *)
+(*   the buffer is never overrun and the memory held by the current-format  *)
+(*   parser is at most (K+1) MAX + input length in EVERY state, whatever    *)
+(*   the input would decompress to (the bomb clause);                       *)
+(*   a serialized valid machine of size <= MAX parses Ok whatever the       *)
+(*   chunking (Variant {"F9"}: the historic single read() - RoundTrip is    *)
+(*   violated by a short first read; `./check probe` shows the trace);      *)
+(*   parsing terminates (Terminates, under weak fairness).                  *)
 (* The byte-level fidelity of bincode / zlib / base64 is not modelled       *)
 (* (DESIGN.md section 8): CodecTrace judges recorded runs of the real code. *)
 (***************************************************************************)
-EXTENDS Integers, Sequences
+EXTENDS Integers, Sequences, FiniteSets
 
 CONSTANTS MAX,          \* MAX_DECOMPRESSED_SIZE in abstract units
-          K             \* slack factor for the in-memory form of the decoded machine
+          K,            \* slack factor for the in-memory form of the decoded machine
+          VariantId     \* "cur" = the code as it is; "F9" = single read() of the pinned commit
 
-Stages == <<"len", "ascii", "version", "base64", "inflate", "bincode", "validate">>
-\* an abstract input: the first stage that rejects it ("none" = well-formed), its length, and the
-\* size it would decompress to if fully inflated
-Inputs == [bad : {"none", "len", "ascii", "version", "base64", "inflate", "bincode", "validate"},
-           len : {1, 4, MAX, 4 * MAX},
-           expands : {1, MAX, MAX + 1, 1000 * MAX}]
+Variant == IF VariantId = "F9" THEN {"F9"} ELSE {}
 
-StageIdx(s) == CHOOSE i \in 1..Len(Stages) : Stages[i] = s
-Reached(inp, s) == inp.bad = "none" \/ StageIdx(s) <= StageIdx(inp.bad)
+StagesV2 == <<"len", "ascii", "version", "base64", "inflate", "bincode", "validate">>
+StagesV1 == <<"hex", "inflate", "version", "header", "paylen", "states", "validate">>
+Stages(p) == IF p = "v2" THEN StagesV2 ELSE StagesV1
+BadOf(p) == {"none"} \cup {Stages(p)[i] : i \in 1..Len(Stages(p))}
 
-\* memory held while parsing: the base64-decoded bytes, the fixed inflate buffer, the decoded machine
-Mem(inp) ==
-  (IF Reached(inp, "base64") THEN (3 * inp.len) \div 4 + 1 ELSE 0)
-  + (IF Reached(inp, "inflate") THEN MAX ELSE 0)                       \* vec![0; MAX], never more
-  + (IF Reached(inp, "bincode") THEN K * (IF inp.expands < MAX THEN inp.expands ELSE MAX) ELSE 0)
+\* an abstract input: the parser it is given to, the first stage that rejects it ("none" =
+\* well-formed), its length, and the size it would decompress to if fully inflated
+Inputs == UNION {[parser : {p}, bad : BadOf(p), len : {1, 4, MAX, 4 * MAX},
+                  expands : {1, MAX - 1, MAX, MAX + 1, 1000 * MAX}] : p \in {"v2", "v1"}}
 
-\* a too-long stream is cut at MAX by the fixed buffer: what bincode sees is a prefix
-Outcome(inp) ==
-  IF inp.bad # "none" THEN "Err"
-  ELSE IF inp.expands > MAX THEN "Err"       \* truncated encoding cannot be a complete valid machine of that size
-  ELSE "Ok"
+VARIABLES inp, pc, nread, mem, out, buf    \* buf: the fixed inflate buffer has been allocated
+vars == <<inp, pc, nread, mem, out, buf>>
 
-VARIABLE inp
-Init == inp \in Inputs
-Next == UNCHANGED inp
-Spec == Init /\ [][Next]_inp
+StageIdx(p, s) == CHOOSE i \in 1..Len(Stages(p)) : Stages(p)[i] = s
+NextStage(p, s) == IF StageIdx(p, s) = Len(Stages(p)) THEN "done" ELSE Stages(p)[StageIdx(p, s) + 1]
+Min(a, b) == IF a < b THEN a ELSE b
 
-OkMeansValidated == Outcome(inp) = "Ok" => inp.bad = "none"
+Init == /\ inp \in Inputs
+        /\ pc = Stages(inp.parser)[1] /\ nread = 0 /\ mem = 0 /\ out = "none" /\ buf = FALSE
+
+Reject == pc' = "done" /\ out' = "Err" /\ UNCHANGED <<inp, nread, mem, buf>>
+Advance(m) == pc' = NextStage(inp.parser, pc) /\ mem' = m /\ UNCHANGED <<inp, nread, buf>>
+                /\ out' = IF NextStage(inp.parser, pc) = "done" THEN "Ok" ELSE out
+
+\* a stage that only inspects what is there (no allocation)
+PlainStage(s) == /\ pc = s
+                 /\ IF inp.bad = s THEN Reject ELSE Advance(mem)
+
+\* base64 / hex decoding allocates the decoded bytes (3/4 resp. 1/2 of the input)
+DecodeStage(s, num, den) ==
+  /\ pc = s
+  /\ IF inp.bad = s THEN Reject ELSE Advance(mem + (num * inp.len) \div den + 1)
+
+\* v2 inflate: vec![0; MAX] allocated once, then the read loop
+InflateV2 ==
+  /\ pc = "inflate" /\ inp.parser = "v2"
+  /\ IF ~buf THEN /\ buf' = TRUE /\ mem' = mem + MAX /\ UNCHANGED <<inp, pc, nread, out>>
+     ELSE
+     LET room == MAX - nread
+         left == inp.expands - nread           \* what the stream still holds
+     IN IF inp.bad = "inflate"
+          THEN \* a corrupt stream: some reads may succeed before the error; modelled as failing at once
+               Reject
+          ELSE IF room = 0 \/ left = 0
+          THEN /\ pc' = "bincode" /\ UNCHANGED <<inp, nread, out, mem, buf>>
+          ELSE \E n \in 1..Min(room, Min(left, 3)) :      \* any short read (chunks of 1..3 units)
+                 /\ nread' = nread + n
+                 /\ pc' = IF "F9" \in Variant THEN "bincode" ELSE pc
+                 /\ UNCHANGED <<inp, out, mem, buf>>
+
+\* v1 inflate: read_to_end into a growing Vec (no bound claimed for the legacy parser)
+InflateV1 ==
+  /\ pc = "inflate" /\ inp.parser = "v1"
+  /\ IF inp.bad = "inflate" THEN Reject
+     ELSE /\ nread' = inp.expands /\ mem' = mem + 2 * inp.expands
+          /\ pc' = "version" /\ UNCHANGED <<inp, out, buf>>
+
+\* bincode sees buf[..nread]: a cut stream cannot be a complete encoding of that machine
+Bincode ==
+  /\ pc = "bincode"
+  /\ IF inp.bad = "bincode" \/ nread < inp.expands THEN Reject
+     ELSE Advance(mem + K * nread)
+
+Next ==
+  \/ /\ inp.parser = "v2"
+     /\ \/ PlainStage("len") \/ PlainStage("ascii") \/ PlainStage("version")
+        \/ DecodeStage("base64", 3, 4) \/ InflateV2 \/ Bincode \/ PlainStage("validate")
+  \/ /\ inp.parser = "v1"
+     /\ \/ DecodeStage("hex", 1, 2) \/ InflateV1 \/ PlainStage("version") \/ PlainStage("header")
+        \/ PlainStage("paylen") \/ PlainStage("states") \/ PlainStage("validate")
+
+Spec == Init /\ [][Next]_vars /\ WF_vars(Next)
+
+TypeOK == /\ pc \in {"done"} \cup {Stages(inp.parser)[i] : i \in 1..Len(Stages(inp.parser))}
+          /\ out \in {"none", "Ok", "Err"} /\ (pc = "done") = (out # "none")
+NoOverrun == inp.parser = "v2" => nread <= MAX
+OkMeansValidated == out = "Ok" => inp.bad = "none"
 \* bounded by a constant fixed by the limit plus the length of the input, independent of `expands`
-MemoryBounded == Mem(inp) <= (K + 1) * MAX + inp.len
-RoundTrip == (inp.bad = "none" /\ inp.expands <= MAX) => Outcome(inp) = "Ok"
+MemoryBounded == inp.parser = "v2" => mem <= (K + 1) * MAX + inp.len
+RoundTrip == (pc = "done" /\ inp.parser = "v2" /\ inp.bad = "none" /\ inp.expands <= MAX) => out = "Ok"
+\* an over-long stream never yields a machine: the cut encoding is rejected, not silently accepted
+BombRejected == (pc = "done" /\ inp.parser = "v2" /\ inp.expands > MAX) => out = "Err"
+\* the legacy parser accepts exactly the well-formed inputs as well
+V1Exact == (pc = "done" /\ inp.parser = "v1") => (out = "Ok") = (inp.bad = "none")
+Terminates == <>(pc = "done")
 =============================================================================
